@@ -1,5 +1,5 @@
 """C12 concurrency safety: no data races, panics or deadlocks."""
-import os, re, glob, itertools
+import json, os, re, glob, itertools
 import vlib, cases, pool_common as pc
 
 
@@ -55,6 +55,12 @@ def run(tier):
         if not os.path.exists(op + ".ok"):
             raise vlib.FrameworkError(hname + " (race build) did not finish")
         chk.cov["race_workload_" + hname] = len(sample)
+        try:
+            if json.load(open(op + ".ok")).get("stuck"):
+                # an operation of a concurrent history never returned (the harness's 20 s watchdog): a deadlock
+                ev.append({"ev": "group", "name": hname + " (race build)", "panics": [], "stuck": True, "ops": 1})
+        except ValueError:
+            pass
     # one event per distinct race report (signature: the two access sites in Helios code)
     seen = {}
     for f in glob.glob(os.path.join(sd, "racelog*")):
